@@ -621,6 +621,10 @@ func ruleOPT4(c *Ctx) {
 				why = "the operator test is not after the left operand's evaluation"
 				continue
 			}
+			if rcall.Block().Dominates(b) {
+				why = "the right operand is evaluated before the operator is examined (eager evaluation)"
+				continue
+			}
 			// a return that is not a fresh-error return, reachable from the true edge without evaluating the right operand,
 			// and dominated by the edge where the left value's Bool() has the short-circuit polarity
 			start := b.Succs[0].Instrs[0]
